@@ -388,6 +388,66 @@ theorem reported_index_is_the_failed_endpoint (k : Nat) :
   simp only [beq_iff_eq] at this
   simp [reportIdx, this]
 
+/-- the `Idx` an error site of the regenerated table computes on websocket endpoint `i`; an expression the
+model does not know is taken to name ANOTHER endpoint (the pessimistic reading) -/
+def evalIdx (expr : String) (i : Nat) : Nat :=
+  match reportIdx expr i with
+  | some k => k
+  | none => i + 1
+
+/-- **the reports the code produces** when websocket endpoint `i` fails while the node is subscribed to the
+table indices `ts`: every subscription (entry) of that endpoint may report through each of its error sites,
+with the `Idx` expression of that site in the REGENERATED table evaluated at `i`. -/
+def codeReports (ts : List Nat) (i : Nat) : List Nat :=
+  ts.flatMap (fun t => (entries.filter (fun e => e.index == t)).flatMap
+    (fun e => e.errs.map (fun r => evalIdx r.2.2 i)))
+
+/-- every report the code produces for a failing endpoint names that endpoint -/
+theorem code_reports_name_the_failed_endpoint (ts : List Nat) (i : Nat) :
+    ∀ r ∈ codeReports ts i, r = i := by
+  intro r hr
+  simp only [codeReports, List.mem_flatMap, List.mem_filter, List.mem_map] at hr
+  obtain ⟨t, _, e, ⟨he, _⟩, x, hx, rfl⟩ := hr
+  simp [evalIdx, reported_index_is_the_failed_endpoint i e he x hx]
+
+example : codeReports (subscribedRows.map (·.index)) 1 = List.replicate 14 1 := by decide
+
+/-- **3''. endpoint failure tolerated by the node as it is** — no hypothesis about the reports: endpoint `failed`
+fails at any point; the consumer handles the reports the code produces for it (`codeReports`, built from the
+regenerated table for the node's seven subscriptions — or any selection `reports` of them, since a watcher
+whose context is already cancelled does not report) by disconnecting the endpoint each one names; any other
+endpoint `j` that delivers its complete stream still gets each log to the handlers exactly once, including
+everything it emits after the failure. -/
+theorem endpoint_failure_tolerated_node (hash : Bytes → H) (Hs : List (Log P))
+    (eps : List (Endpoint H P)) (failed j : Nat) (reports : List Nat) (ep : Endpoint H P)
+    (m : List (Item H P))
+    (hH : ∀ l ∈ Hs, l.removed = false ∧ 0 < l.blockN)
+    (hd : Hs.Pairwise (fun a b => ident hash false a ≠ ident hash false b))
+    (hitems : ∀ e ∈ eps, ∀ x ∈ e.before ++ e.after, StreamItem Hs x)
+    (hsel : ∀ r ∈ reports, r ∈ codeReports (subscribedRows.map (·.index)) failed)
+    (hj : eps[j]? = some ep) (hjf : j ≠ failed) (hjc : ∀ l ∈ Hs, Item.log l ∈ ep.before ++ ep.after)
+    (hm : Interleaving (streamsAfterReports failed reports 0 eps) m) :
+    (firstEvent hash m).Perm (Hs.map (·.payload)) :=
+  endpoint_failure_tolerated_with_disconnect hash Hs eps failed j reports ep m hH hd hitems
+    (fun r hr => code_reports_name_the_failed_endpoint _ failed r (hsel r hr)) hj hjf hjc hm
+
+/-- the same with ALL reports of the code handled -/
+theorem endpoint_failure_tolerated_node_all_reports (hash : Bytes → H) (Hs : List (Log P))
+    (eps : List (Endpoint H P)) (failed j : Nat) (ep : Endpoint H P) (m : List (Item H P))
+    (hH : ∀ l ∈ Hs, l.removed = false ∧ 0 < l.blockN)
+    (hd : Hs.Pairwise (fun a b => ident hash false a ≠ ident hash false b))
+    (hitems : ∀ e ∈ eps, ∀ x ∈ e.before ++ e.after, StreamItem Hs x)
+    (hj : eps[j]? = some ep) (hjf : j ≠ failed) (hjc : ∀ l ∈ Hs, Item.log l ∈ ep.before ++ ep.after)
+    (hm : Interleaving (streamsAfterReports failed (codeReports (subscribedRows.map (·.index)) failed) 0 eps) m) :
+    (firstEvent hash m).Perm (Hs.map (·.payload)) :=
+  endpoint_failure_tolerated_node hash Hs eps failed j _ ep m hH hd hitems (fun _ h => h) hj hjf hjc hm
+
+example :
+    let eps : List (Endpoint Bytes Nat) := [{ before := [.log la], after := [.log lc] }, { before := [.log la], after := [] }]
+    streamsAfterReports 1 (codeReports (subscribedRows.map (·.index)) 1) 0 eps = [[.log la, .log lc], [.log la]] := by
+  have : codeReports (subscribedRows.map (·.index)) 1 = List.replicate 14 1 := by decide
+  simp [this, streamsAfterReports]
+
 example : reportIdx "getWsIndex(ctx)" 2 = some 2 ∧ reportIdx "getIndex(ctx)" 2 = some 0 := by decide
 
 end Dos.Props.C18
